@@ -77,6 +77,7 @@ type fakeNet struct {
 	turnMode     string // "ok", "listen-error", "allocate-error", "allocate-blocks"
 	turnRelease  chan struct{}
 	noIPv6       bool // a host without IPv6: udp6 sockets cannot be created
+	oddLocalAddr bool // UDP sockets report a local address that is not a *net.UDPAddr (an application's own transport.Net)
 	listenPacket int
 	// inUseFailures counts listens refused because the port was still held (e.g. by a cycle winding down)
 	inUseFailures int
@@ -294,7 +295,17 @@ func (s *fnSock) isClosed() bool {
 	return s.closed
 }
 
+// fnOddAddr: what an application's own transport.Net may hand out as the local address of a UDP connection.
+type fnOddAddr struct{ s string }
+
+func (a fnOddAddr) Network() string { return "udp" }
+func (a fnOddAddr) String() string  { return a.s }
+
 func (s *fnSock) LocalAddr() net.Addr {
+	if s.fn != nil && s.fn.oddLocalAddr && s.kind == "udp" {
+		return fnOddAddr{s.local.String()}
+	}
+
 	return &net.UDPAddr{IP: s.local.Addr().AsSlice(), Port: int(s.local.Port())}
 }
 func (s *fnSock) RemoteAddr() net.Addr { return nil }
